@@ -128,7 +128,7 @@ def exHandEnv : Loop.Env := { opt := ⟨0, 1000, 5, 1, false, true⟩, maxIdle :
 example : ((Loop.run (fun x r => x * r / 10) exHandEnv exHand [.cycle {} [] false]).shards.map
       fun sh => (Loop.statusOf sh).map fun p => (p.1, p.2.state)) = [[(1, .inTransfer)], [(1, .normal)]] ∧
     ((Loop.run (fun x r => x * r / 10) exHandEnv exHand
-        [.cycle {} [] false, .scrape 1 1 (some (10, 10)), .cycle {} [{}, ⟨false, false, false, false, true⟩] false]).shards.map
+        [.cycle {} [] false, .scrape 1 1 (some (10, 10)), .cycle {} [{}, ⟨false, false, false, false, true, false⟩] false]).shards.map
       fun sh => (Loop.statusOf sh).map fun p => (p.1, p.2.state)) = [[], [(1, .normal)]] := by
   decide
 
